@@ -177,7 +177,12 @@ void bn_mod_barrt(bn_t c, const bn_t a, const bn_t m, const bn_t u) {
 #if BN_MOD == MONTY || (defined(WITH_FP) && FP_RDC == MONTY) || !defined(STRIP)
 
 void bn_mod_pre_monty(bn_t u, const bn_t m) {
+#if WSIZE < 32
+	/* Digits narrower than int would be promoted to (signed) int and overflow. */
+	uint32_t x, b = m->dp[0];
+#else
 	dig_t x, b = m->dp[0];
+#endif
 
 	if (bn_is_even(m) || bn_sign(m) != RLC_POS) {
 		RLC_THROW(ERR_NO_VALID);
@@ -196,7 +201,7 @@ void bn_mod_pre_monty(bn_t u, const bn_t m) {
 	x *= (dig_t)2 - b * x;						/* here x*a==1 mod 2**64 */
 #endif
 	/* u = -1/m0 (mod 2^RLC_DIG) */
-	bn_set_dig(u, -x);
+	bn_set_dig(u, (dig_t)(-x));
 }
 
 void bn_mod_monty_conv(bn_t c, const bn_t a, const bn_t m) {
